@@ -72,10 +72,11 @@ def leaf_obj(n):
 class Realizer:
   """Builds real objects for an abstract heap, bottom-up by dependency."""
 
-  def __init__(self, heap, buildable_types=None):
+  def __init__(self, heap, buildable_types=None, fn_for=None):
     self.heap = heap
     self.objs = {}
     self.types = buildable_types or {'config': fdl.Config, 'partial': fdl.Partial}
+    self.fn_for = fn_for or (lambda i, o: FNS[o['fn']])
 
   def val(self, v):
     if v > 0:
@@ -90,7 +91,7 @@ class Realizer:
     items = o['items']
     if k in ('config', 'partial'):
       kwargs = {slot_name(it['key']): self.val(it['val']) for it in items}
-      r = self.types[k](FNS[o['fn']], **kwargs)
+      r = self.types[k](self.fn_for(i, o), **kwargs)
     elif k == 'list':
       r = [self.val(it['val']) for it in items]
     elif k == 'tuple':
